@@ -19,7 +19,11 @@ N_CASES = {"quick": 300, "thorough": 4000}
 N_SEARCH = {"quick": 1, "thorough": 2}
 SHARD = 500
 HAS_MODEL_OUT = True
-RULE = ("(a) real sliding windows (lifetimes 1 s / 1.5 s / 2 s) and real metrics.Stats windows run concurrently, each through "
+RULE = ("(0) class cleaner-race, free running: real windows with their real cleaner goroutine; a block of samples left to "
+        "expire unread, live blocks of known values behind it, a prober goroutine whose blocked Add reveals the cleaner holding the "
+        "window lock at the 2 s tick, an export fired at that moment, one 120 ms later, one after everything expired; judged by the "
+        "window clause on the recorded add / export instants (blocks live or expired for sure, anything else undecided); "
+        "(a) real sliding windows (lifetimes 1 s / 1.5 s / 2 s) and real metrics.Stats windows run concurrently, each through "
         "its own generated timed history of Add / Samples / Stats.Get (plus fixed decisive shapes: sample expired while another "
         "is live at a cleaner tick, read after expiry before a tick, everything expired); every event >= 150 ms away from any "
         "expiry and tick instant; model and spec are evaluated on the observed event times (microseconds), estimated cleaner "
@@ -30,6 +34,9 @@ RULE = ("(a) real sliding windows (lifetimes 1 s / 1.5 s / 2 s) and real metrics
         "trace; (c) goroutines bumping one metrics.Stats concurrently with exporters; "
         "non-trivial = distinct (kind, class, input) tuples")
 TRUSTED_BASE = [
+    "class cleaner-race: the window model is sequential; the class checks that concurrency with the cleaner goroutine does not "
+    "take the code outside it (blocks of Add calls are judged through the model lifted to blocks); the interleaving is provoked, "
+    "not forced, so detection of a cleaner/export race is probabilistic per round",
     "window time is the harness clock: event times are time.Since(start) taken just before each call; the call's own time.Now() "
     "lies within 20 ms of it (histories where a read comes closer than 20 ms to an observed expiry instant are re-run, and "
     "dropped as class ambiguous-skipped after 3 attempts)",
@@ -79,7 +86,7 @@ def ckv(m):
 
 
 def skipped(c):
-    if c["kind"] == "win":
+    if c["kind"] in ("win", "race"):
         return bool(c.get("ambiguous"))
     if c["kind"] == "query":
         return c["cls"]["cache"] == "ambiguous"
@@ -125,9 +132,28 @@ def conc_to_coq(c):
     return "CConc %s %s %s" % (ths, exps, ckv(c["final"]))
 
 
+def race_to_coq(c):
+    evs = []
+    for e in c.get("revs", []):
+        if e["op"] == "block":
+            evs.append("RBlock %s %s %s %s" % (cZ(e.get("v", 0)), cZ(e.get("n", 0)), cZ(e["tb"]), cZ(e["ta"])))
+        elif e["op"] == "read":
+            rl = clist([cpair(cZ(v), cZ(n)) for v, n in e.get("rle", [])])
+            op = "None"
+            if e.get("open"):
+                op = "(Some (%s,%s,%s))" % (cZ(e.get("open_v", 0)), cZ(e.get("open_lo", 0)), cZ(e.get("open_hi", 0)))
+            evs.append("RRead %s %s %s %s" % (cZ(e["tb"]), cZ(e["ta"]), rl, op))
+        else:
+            evs.append("RGet %s %s %s %s %s %s" % (cZ(e["tb"]), cZ(e["ta"]), cbool(e.get("present", False)),
+                                                   cZ(e.get("min", 0)), cZ(e.get("max", 0)), cZ(e.get("avg", 0))))
+    return "CRace %s %s %s" % (cbool(c["plan"]["raw"]), cZ(c["plan"]["l_ms"] * 1000), clist(evs))
+
+
 def to_coq(c):
     if skipped(c):
         return "CWin true (1)%Z []"
+    if c["kind"] == "race":
+        return race_to_coq(c)
     if c["kind"] == "win":
         return win_to_coq(c)
     if c["kind"] == "query":
@@ -138,6 +164,9 @@ def to_coq(c):
 def nontrivial(c):
     if skipped(c):
         return None
+    if c["kind"] == "race":
+        # a round counts only when the interleaving was provoked (an Add seen blocked at the tick)
+        return None if c.get("missed") else ["race", c["plan"]]
     if c["kind"] == "win":
         return ["win", c.get("raw", False), c["l_ms"], c.get("sched")]
     if c["kind"] == "query":
@@ -148,6 +177,8 @@ def nontrivial(c):
 def case_class(c):
     if skipped(c):
         return c["kind"] + ":ambiguous-skipped"
+    if c["kind"] == "race":
+        return "race:cleaner-race" + (":not-provoked" if c.get("missed") else "")
     return c["kind"] + ":" + c.get("class", "?")
 
 
